@@ -272,6 +272,20 @@ def gen(chk):
                      ('5.try./(tz(1)).nosuch', [1, "true"])]:
         prog = '"before".p\nr := ' + body + '\nr.err?.p\n"after".p\n'
         cases.append((prog, {"kind": "value", "out": L(["before"] + ms + ["after"])}, "either-prop-step/try"))
+    # library code written in Pangaea must not swallow a raise either: indexing an iterator whose 3rd element raises, a `catch`
+    # handler that raises itself
+    cases.append(('readings := <{|i| raise ValueErr.new("E" + i.S) if i == 2; t(i); yield i * 10 if i < 9; recur(i + 1)}>.new(0)\n"before".p\nx := readings[4]\n"unreached".p\n',
+                  {"kind": "error", "errk": "ValueErr", "errmsg": "E2", "out": "before\n0\n1\n"}, "native:iter-at/plain"))
+    cases.append(('"before".p\nr := [<{|i| yield i if i < 6; recur(i + 1)}>.new(0)[3], (1:10)[2], [5, 6, 7]._iter[1]]\nr.p\n"after".p\n',
+                  {"kind": "value", "out": "before\n[3, 3, 6]\nafter\n"}, "native:iter-at/plain"))
+    cases.append(('"before".p\nr := 7.try.{|x| boom(1)}.catch(Err) {|e| boom(2)}.or(-1)\n"unreached".p\n',
+                  {"kind": "error", "errk": "Err", "errmsg": "E2", "out": "before\n1\n2\n"}, "native:catch-handler-raises/plain"))
+    cases.append(('"before".p\nr := 7.try.{|x| boom(1)}.catch(Err) {|e| t(2)}.or(-1)\nr.p\n"after".p\n',
+                  {"kind": "value", "out": "before\n1\n2\n2\nafter\n"}, "native:catch-handler-raises/plain"))
+    # a zero step is an error for every kind of receiver (str included), literal or computed
+    for recv in ('"pangaea"', "[1, 2, 3]", "5"):
+        cases.append(('"before".p\nn := tz(1)\nx := %s[::n]\n"unreached".p\n' % recv,
+                      {"kind": "error", "errk": "ValueErr", "errmsg": "cannot use 0 for range step", "out": "before\n1\n"}, "zero-step/plain"))
     rng.setstate(st)
     # nested, random
     n = 500 if chk.tier == "quick" else 15000
